@@ -167,7 +167,7 @@ def corpus_edits(toks):
             if b"'" in rest_of_line or b'"' in rest_of_line:
                 continue  # a later quote on the line would pair up with the damaged one: more than one violation
             for bad, what in [(t[:-1], 'unterminated'), (t[:-1] + '\n' + "'", 'EOL in string'), ("'''" + t[1:-1], 'unterminated triple'), ('bu' + t.lstrip('bu'), 'bad prefix'),
-                              (t[:-1] + '\\', 'backslash at end'), (t[:-1] + '\\N{no such}' + "'", 'unknown name'), (t[:-1] + '\\x4' + "'", 'short hex')]:
+                              (t[:-1] + '\\', 'backslash at end'), (t[:-1] + '\\N{no such}' + "'", 'unknown name'), (t[:-1] + '\\x4' + "'", 'short hex'), (t[:-1] + '\\x+1' + "'", 'signed hex')]:
                 if t.startswith('b') and what in ('unknown name',):
                     continue
                 yield 'string-form', (data[:a] + bad.encode() + data[b:]).decode(), a, n + 8, what
@@ -201,8 +201,8 @@ def single_violation(combo, wrap):
         sub = cpython_error(wrap(combo[:i] + combo[i + 1:]))
         if sub is None:
             fixable = True
-        elif sub != full:
-            return False  # a sub-list that is wrong for another reason: a second, independent violation
+        elif sub != full and 'must precede /' not in sub:
+            return False  # a sub-list that is wrong for another reason: a second, independent violation (a '/' left without a parameter before it is an artefact of the drop)
         if '=' in combo[i] and not combo[i].startswith('*') and cpython_error(wrap(combo[:i] + (combo[i].split('=')[0],) + combo[i + 1:])) is None:
             fixable = True
     return fixable
